@@ -438,7 +438,7 @@ Proof.
   apply (stR_sbind pst pst_trans).
   - destruct (0 <? _); [|apply pst_refl].
     assert (F2' : pst s2 (acked_counts_as_sent s2)).
-    { unfold acked_counts_as_sent. destruct (seq_gt _ _); [pst_tac | apply pst_refl]. }
+    { unfold acked_counts_as_sent. destruct (seq_gt _ _ && seq_lt _ _); [pst_tac | apply pst_refl]. }
     apply (stR_weaken pst pst_trans) with (s := acked_counts_as_sent s2); [exact F2'|].
     generalize (acked_counts_as_sent s2). intro s2'.
     destruct (truncate_front _ _) as [tx1 tr].
